@@ -455,8 +455,8 @@ pub fn run(tier: &str) -> i32 {
     acc = Acc::merge(acc, mr.acc);
 
     // ---- regex table
-    let pats = ["a", "^a", "a$", "^a$", "a.c", "a*", "ab+", "(ab)+c", "[a-c]+", "[^a]", "\\d+", "a|b", "(?i)AB", "^$"];
-    let strs = ["", "a", "ab", "abc", "ba", "aXc", "ababc", "AB", "xaby", "123", "a1", "é", "abab", "c", "B", "a\nc"];
+    let pats = ["a", "^a", "a$", "^a$", "a.c", "a*", "ab+", "(ab)+c", "[a-c]+", "[^a]", "\\d+", "a|b", "(?i)AB", "^$", "ab{2}c", "b{2}", "a{1,2}b", "x{0}a", "\\d{3}", "(ab){2}", "b{2,}", "ab{2}", "a{2}$"];
+    let strs = ["", "a", "ab", "abc", "ba", "aXc", "ababc", "AB", "xaby", "123", "a1", "é", "abab", "c", "B", "a\nc", "abbc", "xabbcx", "ab{2}c", "abbbc", "aab", "b{2}", "a{2}"];
     let mut rx = 0u64;
     for p in pats {
         for sv in strs {
